@@ -75,7 +75,10 @@ func buildSchema(impl string, stringKeys bool) *graphql.Schema {
 		var opts []schemabuilder.FieldFuncOption
 		opts = append(opts, schemabuilder.Paginated)
 		// "mixed" schemas give the two filter fields different kinds (the element list is []*Item)
-		mixed := map[string]map[string]string{"mixed": {"name": "plainp", "desc": "batchp"}, "mixed2": {"name": "expensive", "desc": "plainp"}, "mixed3": {"name": "batchp", "desc": "expensive"}}
+		mixed := map[string]map[string]string{"mixed": {"name": "plainp", "desc": "batchp"}, "mixed2": {"name": "expensive", "desc": "plainp"}, "mixed3": {"name": "batchp", "desc": "expensive"},
+			// crossed pairings: a list of values with helper funcs that take pointers, a list of
+			// pointers with helper funcs that take values
+			"xval": {"name": "batchp", "desc": "plainp"}, "xptr": {"name": "batch", "desc": "plain"}}
 		ff := func(name string, get func(Item) string) {
 			kind := impl
 			if kind == "manualfb" {
@@ -130,7 +133,22 @@ func buildSchema(impl string, stringKeys bool) *graphql.Schema {
 				schemabuilder.SortField("score", func(ctx context.Context, i Item) float64 { return i.Score }, schemabuilder.Expensive),
 				schemabuilder.SortField("u", func(ctx context.Context, i Item) uint8 { return i.U }, schemabuilder.Expensive),
 				schemabuilder.SortField("label", func(ctx context.Context, i Item) string { return i.Label }, schemabuilder.Expensive))
-		case "batch":
+		case "xval":
+			opts = append(opts, schemabuilder.BatchSortField("rank", func(ctx context.Context, m map[batch.Index]*Item) (map[batch.Index]int64, error) {
+				out := map[batch.Index]int64{}
+				for k, v := range m {
+					out[k] = v.Rank
+				}
+				return out, nil
+			}), schemabuilder.SortField("score", func(i *Item) float64 { return i.Score }),
+				schemabuilder.BatchSortField("u", func(ctx context.Context, m map[batch.Index]*Item) (map[batch.Index]uint8, error) {
+					out := map[batch.Index]uint8{}
+					for k, v := range m {
+						out[k] = v.U
+					}
+					return out, nil
+				}), schemabuilder.SortField("label", func(ctx context.Context, i *Item) string { return i.Label }, schemabuilder.Expensive))
+		case "batch", "xptr":
 			opts = append(opts, schemabuilder.BatchSortField("rank", func(ctx context.Context, m map[batch.Index]Item) (map[batch.Index]int64, error) {
 				out := map[batch.Index]int64{}
 				for k, v := range m {
@@ -195,7 +213,7 @@ func buildSchema(impl string, stringKeys bool) *graphql.Schema {
 				},
 				func(ctx context.Context, args plainArgs) ([]Item, error) { return current(), nil },
 				func(ctx context.Context) bool { return true }, opts...)
-		} else if impl == "plain" || impl == "batch" {
+		} else if impl == "plain" || impl == "batch" || impl == "xval" {
 			q.FieldFunc("items", func() []Item { return current() }, opts...)
 		} else {
 			q.FieldFunc("items", func(ctx context.Context) ([]*Item, error) {
@@ -227,7 +245,7 @@ func buildSchema(impl string, stringKeys bool) *graphql.Schema {
 	return s.MustBuild()
 }
 
-var impls = []string{"plain", "expensive", "batch", "batchfb", "stringkeys", "mixed", "mixed2", "mixed3", "manualfb"}
+var impls = []string{"plain", "expensive", "batch", "batchfb", "stringkeys", "mixed", "mixed2", "mixed3", "manualfb", "xval", "xptr"}
 
 type manualArgs struct {
 	Note           *string
